@@ -568,6 +568,18 @@ def cases(tier, rng):
         for _ in range(2 if tier == 'quick' else 8):
             for cfg in _long_cfgs(fs, rng):
                 yield {'k': 'long', 'fs': fs, 'cfg': cfg, 'sizes': _long_sizes(fs, rng)}
+    # envelopes whose `transform` changes the units (f(1) != 1, f(0) != 0): every chunking, in particular chunks that lie
+    # wholly inside the plateau or wholly outside the envelope, against one request (oracle only: the model's plateau and
+    # silence factors are an exact one and an exact zero)
+    for fs in FS:
+        for _ in range(4 if tier == 'quick' else 60):
+            cfg = {'t': 'env', 'window': rng.choice(['hann', 'cosine-squared', 'blackman']), 'start': rng.choice([0, 2, 2.4]),
+                   'dur': rng.choice([30, 31.5]), 'rise': rng.choice([3, 4.5, 0]), 'transform': rng.choice(['half', 'db']),
+                   'in': {'t': 'tone', 'f': fs / 8.0, 'level': 1.5, 'phase': 0.3}}
+            total, sizes = 44, []
+            while sum(sizes) < total:
+                sizes.append(min(rng.choice([1, 2, 3, 5, 8, 13]), total - sum(sizes)))
+            yield {'k': 'long', 'fs': fs, 'cfg': cfg, 'sizes': sizes}
 
 
 def impl(case):
@@ -597,3 +609,21 @@ if _distribution0 is not None:
         d['long (> 1 s) histories'] = len(cases_) - len(keep)
         return d
 # ================================================= end of the long addition ============================================
+
+
+# ================================================= translator tie of the index bookkeeping =============================
+# coq/gen/StimIdxGen.v is regenerated from $PSIAUDIO_REPO/psiaudio/stim.py on every run (translate/pystim2coq.py: fail-closed
+# ast translator + self-test against the real functions / objects); coq/Stim/ProofsTie.v proves the regenerated definitions equal
+# to the model definitions of coq/Stim/Model.v, and Props/C01.v restates the main theorems over them (C01_source_*).
+def translate(repo):
+    from translate import pystim2coq
+    return pystim2coq.hook(repo)
+
+
+TRUSTED = TRUSTED + ['translate/pystim2coq.py (fail-closed ast translator of the index bookkeeping of envelope, GateFactory.__init__ / next / '
+                     'n_samples_remaining / n_samples / is_complete, EnvelopeFactory.next, FixedWaveform.next / queries, '
+                     'SquareWaveFactory.next, _sam_envelope to coq/gen/StimIdxGen.v; its IR is run by a small interpreter against the real '
+                     'code on every run); ' + 'pinned, not translated (a change of their text breaks the tie): the float conversions '
+                     'int(round(t * fs)) / int(delay * fs), the rise_time-is-None branch, the window look-up, the SAM formula, `transform`, '
+                     'the input factory\'s next / reset calls, env * token; np.zeros / np.ones / np.clip / np.concatenate / basic slicing '
+                     'as Stim/Model.v and Common/PySlice.v model them']
